@@ -333,7 +333,10 @@ class Parser:
             arg_extr = arg = []
             delim = False
             tok = buf.skip_space()
-            if tok:
+            if tok and (code == 'A' or code == 'O' and tok.txt == '['
+                                        or code == '*' and tok.txt == '*'):
+                # NB: if an optional argument is absent, then the next token
+                # is not part of the macro call
                 pos = tok.pos
             if code == '*':
                 if tok and tok.txt == '*':
